@@ -347,6 +347,50 @@ def parse_consts(files):
     return c
 
 
+def parse_alloc_sites(files):
+    """every place in the reading code that sizes a collection ahead of its contents:
+    (file, enclosing fn, expression), test modules excluded"""
+    import hashlib
+    sites = []
+    for rel in ["reader.rs", "record/io.rs", "record/mod.rs", "record/point.rs", "record/multipoint.rs",
+                "record/polyline.rs", "record/polygon.rs", "record/multipatch.rs", "header.rs"]:
+        src = files[rel]
+        cut = src.find("#[cfg(test)]")
+        if cut >= 0:
+            src = src[:cut]
+        fn = "?"
+        pos = 0
+        for m in re.finditer(r"fn\s+(\w+)|(with_capacity|reserve_exact|reserve|resize_with|resize)\s*\(|vec!\s*\[", src):
+            if m.group(1):
+                fn = m.group(1)
+                continue
+            start = m.end()
+            if m.group(2):
+                depth, i = 1, start
+                while i < len(src) and depth:
+                    depth += src[i] == "("
+                    depth -= src[i] == ")"
+                    i += 1
+                expr = src[start:i - 1]
+                kind = m.group(2)
+            else:
+                depth, i = 1, start
+                while i < len(src) and depth:
+                    depth += src[i] == "["
+                    depth -= src[i] == "]"
+                    i += 1
+                inner = src[start:i - 1]
+                if ";" not in inner:
+                    continue        # a literal list, not a sized one
+                expr = inner.split(";", 1)[1]
+                kind = "vec!"
+            expr = re.sub(r"\s+", "", expr)
+            text = f"{rel}:{fn}:{kind}({expr})"
+            h = int(hashlib.sha1(text.encode()).hexdigest()[:12], 16)
+            sites.append((text, h))
+    return sites
+
+
 # ------------------------------------------------------------------ emit
 def emit():
     files = {
@@ -363,6 +407,7 @@ def emit():
     ptsizes = parse_point_read_sizes(files["record/point.rs"])
     parms, pwr, prd, pclose = parse_patch(files["record/multipatch.rs"])
     consts = parse_consts(files)
+    alloc_sites = parse_alloc_sites(files)
 
     L = []
     A = L.append
@@ -503,6 +548,13 @@ def emit():
     for k, v in consts.items():
         A(f"def {k} : Nat := {v}")
     A("end Const")
+    A("")
+    A("/-- every place in the reading code that sizes a collection ahead of its contents (fingerprints;")
+    A("the text of each is in the comment).  `Props/C17` states which ones the model accounts for. -/")
+    A("def allocSites : List Nat := [")
+    for i, (text, h) in enumerate(alloc_sites):
+        A(f"  {h}{',' if i + 1 < len(alloc_sites) else ''}  -- {text}")
+    A("]")
     A("end Shp")
     return "\n".join(L) + "\n"
 
